@@ -1,12 +1,12 @@
-(* C03 / kernel K43: the NamedTuple unpacker of the model is the code unpack_named_tuple emits.
-   [k43_indices] / [k43_code] are translated from /repo on every run (coq/gen/K43.v); [run_code] (NtEmit.v) is
+(* C03 / kernel K45: the NamedTuple unpacker of the model is the code unpack_named_tuple emits.
+   [k45_indices] / [k45_code] are translated from /repo on every run (coq/gen/K45.v); [run_code] (NtEmit.v) is
    the semantics of the emitted statements.  Hence the two rules the model relies on are read off the source:
    as_list -- `except IndexError: if len(fields) < len(value): raise` (fix 8ccb0df: trailing defaults only when the
               input itself is exhausted; an item's own IndexError propagates);
    as_dict -- `if 'name' in value:` exactly on the fields that have a default (fix 28df7ca). *)
 From Coq Require Import List String ZArith Bool.
-From Verif Require Import Core TyModel TyProofs TyNtDict NtEmit K43Proofs.
-From VerifGen Require Import K43.
+From Verif Require Import Core TyModel TyProofs TyNtDict NtEmit K45Proofs.
+From VerifGen Require Import K45.
 Import ListNotations.
 
 (* `field in defaults` of the source: the NamedTuple's _field_defaults has a key per defaulted field *)
@@ -18,12 +18,12 @@ Theorem C03_named_code_is_model : forall (E: senv) (P: prims) (c: String.string)
   sfind E KNamed c = Some k ->
   uk E P (VList l) (cu true (SNamed c)) =
     (r <- run_code (ev_list (fun f x => uk E P x (cu true f.(sf_ty))) (konst_u E) l) has (List.length l)
-                   (k43_indices false (map sf_name k.(sc_fields)))
-                   (k43_code false (negb (has_default k.(sc_fields))) (in_defaults_of k.(sc_fields)) (map sf_name k.(sc_fields)))
+                   (k45_indices false (map sf_name k.(sc_fields)))
+                   (k45_code false (negb (has_default k.(sc_fields))) (in_defaults_of k.(sc_fields)) (map sf_name k.(sc_fields)))
                    k.(sc_fields) ;;
      Ok (VNT c r)).
 Proof.
-  intros E P c k l has Ef. cbn [cu]. rewrite uk_unfold. rewrite Ef. rewrite k43_as_list. reflexivity.
+  intros E P c k l has Ef. cbn [cu]. rewrite uk_unfold. rewrite Ef. rewrite k45_as_list. reflexivity.
 Qed.
 Print Assumptions C03_named_code_is_model.
 
@@ -33,12 +33,12 @@ Theorem C03_ntdict_code_is_model : forall (E: senv) (P: prims) (c: String.string
   uk_nd E P d c =
     (r <- run_code (ev_dict (fun f (dx: pdec -> res pv) => dx (cu true f.(sf_ty))) (konst_u E) (nd_input_of (fun x => uk E P x) d))
                    (nd_has (nd_input_of (fun x => uk E P x) d)) vlen
-                   (k43_indices true (map sf_name k.(sc_fields)))
-                   (k43_code true (negb (has_default k.(sc_fields))) (in_defaults_of k.(sc_fields)) (map sf_name k.(sc_fields)))
+                   (k45_indices true (map sf_name k.(sc_fields)))
+                   (k45_code true (negb (has_default k.(sc_fields))) (in_defaults_of k.(sc_fields)) (map sf_name k.(sc_fields)))
                    k.(sc_fields) ;;
      Ok (VNT c r)).
 Proof.
-  intros E P c k d vlen Ef Hnd. unfold uk_nd. rewrite Ef. rewrite k43_as_dict; [reflexivity|].
+  intros E P c k d vlen Ef Hnd. unfold uk_nd. rewrite Ef. rewrite k45_as_dict; [reflexivity|].
   (* field names are pairwise distinct: `field in defaults` is "this field has a default" *)
   clear Ef. revert Hnd. generalize (sc_fields k) as fds.
   intros fds Hnd f Hf. unfold in_defaults_of.
@@ -65,11 +65,11 @@ Definition kE : senv :=
 Definition kP : prims := {|
   p_render := fun k w => VStr w; p_parse := fun _ _ => None; p_enum_value := fun _ _ => None; p_enum_of := fun _ _ => None;
   p_b64enc := fun b => b; p_b64dec := fun _ => None; p_int := fun _ => None; p_float := fun _ => None; p_str := fun _ => None |}.
-Example C03_k43_emitted :
-  k43_code false false (in_defaults_of [ ]) ["a"; "b"; "c"] = NCTry [NLAppend; NLAppend; NLAppend] /\
-  k43_code true false (fun n => negb (String.eqb n "a")) ["a"; "b"; "c"] = NCKw [NLSet "a"; NLSetIf "b"; NLSetIf "c"] /\
-  k43_code true true (fun _ => false) ["a"; "b"] = NCCall /\
-  k43_indices true ["a"; "b"] = [IName "a"; IName "b"] /\ k43_indices false ["a"; "b"] = [IPos 0; IPos 1] /\
+Example C03_k45_emitted :
+  k45_code false false (in_defaults_of [ ]) ["a"; "b"; "c"] = NCTry [NLAppend; NLAppend; NLAppend] /\
+  k45_code true false (fun n => negb (String.eqb n "a")) ["a"; "b"; "c"] = NCKw [NLSet "a"; NLSetIf "b"; NLSetIf "c"] /\
+  k45_code true true (fun _ => false) ["a"; "b"] = NCCall /\
+  k45_indices true ["a"; "b"] = [IName "a"; IName "b"] /\ k45_indices false ["a"; "b"] = [IPos 0; IPos 1] /\
   uk kE kP (VList [VInt 1]) (cu true (SNamed "NT")) = Ok (VNT "NT" [VInt 1; VTuple [VInt 0; VInt 0]; VInt 7]) /\
   uk kE kP (VList [VInt 1; VList [VInt 5]; VInt 9]) (cu true (SNamed "NT")) = Exn XIndexError /\          (* 8ccb0df *)
   uk_nd kE kP (VDict [(VStr "a", VInt 1)]) "NT" = Ok (VNT "NT" [VInt 1; VTuple [VInt 0; VInt 0]; VInt 7]) /\   (* 28df7ca *)
